@@ -460,9 +460,7 @@ func (e *Engine) hintOutputs(s *State, f *Frame, x *ssa.Call, hint *ssa.Function
 	}
 	fo := newObject("hint.field", nil)
 	s.heap[fo] = VInt{RT()}
-	env[ps[0].Name()] = VPtr{Obj: fo}
-	env[ps[1].Name()] = inSl
-	env[ps[2].Name()] = outSl
+	e.bindParams(hint, []Value{VPtr{Obj: fo}, inSl, outSl}, "", env)
 	names := e.resultNames(ct, 1)
 	c := &evalCtx{e: e, s: s, env: env, pkg: hint.Pkg.Pkg}
 	site := e.callSiteName(f, x, "invoke.NewHint")
